@@ -121,7 +121,7 @@ def acquire (o : Opts) (e : EnvRec) : Bool × List Event :=
 `out_of_memory` (which sets `thrown_oom`) **only if `allow_oom_call`** and returns true either
 way, so the allocator returns zero; otherwise local memory or one `Space::acquire`.
 Returns (non-null?, `thrown_oom` was set, events). -/
-def allocOnce (r : Req) (e : EnvRec) : Bool × Bool × List Event :=
+def allocOnceOld (r : Req) (e : EnvRec) : Bool × Bool × List Event :=
   if r.obvious then
     if r.opts.allowOomCall then (false, true, [Event.oomCall]) else (false, false, [])
   else if e.localHit then (true, false, [])
@@ -136,7 +136,8 @@ inductive Step
   deriving DecidableEq, Repr
 
 /-- The body of the `loop { … }` of `alloc_slow_inline` after `alloc_slow_once_traced(..)` returned
-`a = (non-zero?, thrown_oom was set, events)`, **as on this tree**:
+`a = (non-zero?, thrown_oom was set, events)`, **as on the pinned tree, before the two `fix:` commits** (kept as `…Old`: the witnesses `F5_witness`,
+`F6_witness_diverges` are about it):
 1. non-zero → return it;
 2. `!at_safepoint` → `reset_allocation_state`, return zero;
 3. `thrown_oom` → reset, return zero;
@@ -144,7 +145,7 @@ inductive Step
    `fail_with_oom = !allocation_success.swap(true)`; if so **`self.out_of_memory(tls)` — not
    guarded by `allow_oom_call`** (DESIGN §7 F5), reset, return zero;
 5. `emergency_collection = state.is_emergency_collection()`; next iteration. -/
-def loopBody (r : Req) (e : EnvRec) (s : State) (a : Bool × Bool × List Event) : Step :=
+def loopBodyOld (r : Req) (e : EnvRec) (s : State) (a : Bool × Bool × List Event) : Step :=
   if a.1 then .ret .addr (s.trace ++ a.2.2)
   else if !r.opts.atSafepoint then .ret .null (s.trace ++ a.2.2)
   else if s.thrownOom || a.2.1 then .ret .null (s.trace ++ a.2.2)
@@ -152,27 +153,27 @@ def loopBody (r : Req) (e : EnvRec) (s : State) (a : Bool × Bool × List Event)
     .ret .null (s.trace ++ a.2.2 ++ [Event.oomCall])
   else .cont { thrownOom := false, emergLocal := e.emergRecord, trace := s.trace ++ a.2.2 }
 
-/-- One iteration of the loop on this tree. -/
-def iter (r : Req) (e : EnvRec) (s : State) : Step := loopBody r e s (allocOnce r e)
+/-- One iteration of the loop of the pinned tree. -/
+def iterOld (r : Req) (e : EnvRec) (s : State) : Step := loopBodyOld r e s (allocOnceOld r e)
 
 /-- The loop, with fuel. -/
-def run (r : Req) : Nat → Env → State → Outcome
+def runOld (r : Req) : Nat → Env → State → Outcome
   | 0, _, s => .outOfFuel s.trace
   | fuel + 1, env, s =>
-    match iter r (env 0) s with
+    match iterOld r (env 0) s with
     | .ret res tr => .done res tr
-    | .cont s' => run r fuel env.tail s'
+    | .cont s' => runOld r fuel env.tail s'
 
-/-- `alloc_slow_inline` on this tree. -/
-def slowPath (r : Req) (fuel : Nat) (env : Env) : Outcome := run r fuel env State.init
+/-- `alloc_slow_inline` of the pinned tree. -/
+def slowPathOld (r : Req) (fuel : Nat) (env : Env) : Outcome := runOld r fuel env State.init
 
-/-! ## The minimally repaired loop
+/-! ## The loop on this tree (after the two `fix:` commits in /repo)
 
 (a) `handle_obvious_oom_request` marks the request as failed (`thrown_oom`) also when
 `allow_oom_call = false`, so the loop's `thrown_oom` test returns zero instead of retrying;
 (b) the emergency branch calls `out_of_memory` only if `allow_oom_call`. -/
 
-def allocOnceFixed (r : Req) (e : EnvRec) : Bool × Bool × List Event :=
+def allocOnce (r : Req) (e : EnvRec) : Bool × Bool × List Event :=
   if r.obvious then
     (false, true, if r.opts.allowOomCall then [Event.oomCall] else [])
   else if e.localHit then (true, false, [])
@@ -180,8 +181,8 @@ def allocOnceFixed (r : Req) (e : EnvRec) : Bool × Bool × List Event :=
     let (ok, evs) := acquire r.opts e
     (ok, false, evs)
 
-/-- Repaired loop body: step 4 calls `out_of_memory` only if `allow_oom_call`. -/
-def loopBodyFixed (r : Req) (e : EnvRec) (s : State) (a : Bool × Bool × List Event) : Step :=
+/-- Loop body on this tree: step 4 calls `out_of_memory` only if `allow_oom_call`. -/
+def loopBody (r : Req) (e : EnvRec) (s : State) (a : Bool × Bool × List Event) : Step :=
   if a.1 then .ret .addr (s.trace ++ a.2.2)
   else if !r.opts.atSafepoint then .ret .null (s.trace ++ a.2.2)
   else if s.thrownOom || a.2.1 then .ret .null (s.trace ++ a.2.2)
@@ -189,16 +190,16 @@ def loopBodyFixed (r : Req) (e : EnvRec) (s : State) (a : Bool × Bool × List E
     .ret .null (s.trace ++ a.2.2 ++ (if r.opts.allowOomCall then [Event.oomCall] else []))
   else .cont { thrownOom := false, emergLocal := e.emergRecord, trace := s.trace ++ a.2.2 }
 
-def iterFixed (r : Req) (e : EnvRec) (s : State) : Step := loopBodyFixed r e s (allocOnceFixed r e)
+def iter (r : Req) (e : EnvRec) (s : State) : Step := loopBody r e s (allocOnce r e)
 
-def runFixed (r : Req) : Nat → Env → State → Outcome
+def run (r : Req) : Nat → Env → State → Outcome
   | 0, _, s => .outOfFuel s.trace
   | fuel + 1, env, s =>
-    match iterFixed r (env 0) s with
+    match iter r (env 0) s with
     | .ret res tr => .done res tr
-    | .cont s' => runFixed r fuel env.tail s'
+    | .cont s' => run r fuel env.tail s'
 
-def slowPathFixed (r : Req) (fuel : Nat) (env : Env) : Outcome := runFixed r fuel env State.init
+def slowPath (r : Req) (fuel : Nat) (env : Env) : Outcome := run r fuel env State.init
 
 /-! ## Helpers shared by the driver and the statements -/
 
